@@ -56,7 +56,15 @@ impl<P: FwProp> Engine for FwEngine<P> {
     }
     fn run_case(&self, k: u64, seed: u64, tier: Tier, stats: &mut Stats) -> Vec<Violation> {
         let mut g = Gen::new(seed);
+        // thorough tier: a fraction of the cases gets much larger bounds (more
+        // machines and states, histories of up to 1000 calls)
+        let deep = tier == Tier::Thorough && g.chance(0.04);
+        DEEP.with(|d| d.set(deep));
+        if deep {
+            stats.inc("deep_cases");
+        }
         let case = self.0.generate(&mut g, tier, stats);
+        DEEP.with(|d| d.set(false));
         if k < 3 {
             stats.samples.push(case.sample_json());
         }
@@ -83,6 +91,14 @@ impl<P: FwProp> Engine for FwEngine<P> {
     ) -> Option<&'static str> {
         self.0.known_finding_crash(seed, tier)
     }
+}
+
+thread_local! {
+    /// set while a 'deep' case of the thorough tier is being generated
+    pub static DEEP: std::cell::Cell<bool> = const { std::cell::Cell::new(false) };
+}
+pub fn deep() -> bool {
+    DEEP.with(|d| d.get())
 }
 
 pub const FW_REAL: [&str; 6] = [
@@ -121,8 +137,13 @@ pub fn gen_wild_case(
         2 | 3 => Family::Dyadic,
         _ => Family::Wild,
     };
+    let (max_machines, max_calls) = if deep() {
+        (max_machines + 3, max_calls.max(1000))
+    } else {
+        (max_machines, max_calls)
+    };
     let mut mc = MachCfg::new(fam);
-    mc.max_states = 1 + g.usize(6);
+    mc.max_states = 1 + g.usize(if deep() { 10 } else { 6 });
     mc.p_trans = *g.pick(&[0.15, 0.3, 0.5, 0.8]);
     mc.p_counter = *g.pick(&[0.0, 0.2, 0.6]);
     mc.p_limit = *g.pick(&[0.0, 0.3, 0.7]);
